@@ -943,12 +943,95 @@ def fad_streams(rep: Report, rng: Rng):
 
 # ------------------------------------------------------------------ entry points
 
+
+# ------------------------------------------------------------------ conditioning stream (sampled numerics)
+
+def _softplus(z: float) -> float:
+    return max(z, 0.0) + math.log1p(math.exp(-abs(z)))
+
+
+def conditioning_stream(rep: Report, rng: Rng):
+    """The theorems are over exact fields; "to within floating-point rounding" is SAMPLED here on the inputs where an
+    algebraically equivalent but numerically worse formula would show: saturating logits, data far from the origin
+    (|mean| >> std), large magnitudes.  Reference: the definition evaluated in float64 / exact Fractions from the very
+    float values fed to torch; tolerance relative to the natural scale, two orders of magnitude above what the pinned
+    code achieves (so it does not flap) and far below what a one-pass / unstabilised rewrite produces."""
+    reps = 12 if rep.tier == "quick" else 80
+    bad = 0
+    for r in range(reps):
+        # (a) normalized entropy from saturating logits, confidently wrong examples included
+        for dt, zs in ((torch.float32, [8, 12, 20, 30]), (torch.float64, [12, 20, 40, 60])):
+            n = rng.choice([4, 7, 16])
+            z = [rng.choice([-1, 1]) * rng.choice(zs + [0.5, 2.0]) for _ in range(n)]
+            y = [rng.choice([0, 1]) for _ in range(n)]
+            if sum(y) in (0, n):
+                y[0] = 1 - y[0]
+            w = [rng.choice([0.5, 1.0, 2.0]) for _ in range(n)] if r % 2 else None
+            ww = w or [1.0] * n
+            ce = sum(wi * (_softplus(zi) - zi * yi) for zi, yi, wi in zip(z, y, ww)) / sum(ww)
+            pr = sum(wi * yi for yi, wi in zip(y, ww)) / sum(ww)
+            ref = ce / (-pr * math.log(pr) - (1 - pr) * math.log(1 - pr))
+            kw = dict(from_logits=True)
+            zt, yt = torch.tensor(z, dtype=dt), torch.tensor(y, dtype=dt)
+            wt = torch.tensor(w, dtype=dt) if w else None
+            got_f = float(F.binary_normalized_entropy(zt, yt, weight=wt, **kw))
+            m = M.BinaryNormalizedEntropy(**kw); m.update(zt, yt, weight=wt)
+            got_c = float(m.compute().reshape(-1)[0])
+            tol = 1e-4 if dt == torch.float32 else 1e-10
+            rep.case(nontrivial_key=("cond-ne", str(dt), tuple(z), tuple(y)), sample=None)
+            rep.count("conditioning:normalized-entropy-saturating-logits")
+            for name, got in (("binary_normalized_entropy", got_f), ("BinaryNormalizedEntropy", got_c)):
+                if not (abs(got - ref) <= tol * abs(ref)):
+                    bad += 1
+                    rep.violation(f"C07|{name}|from_logits|saturating-logits|differs-from-definition",
+                                  f"{name}(from_logits=True) on logits {z}, targets {y}, weights {w} ({dt}) returns {got} but the definition "
+                                  f"Σw·(softplus(z) − z·y)/Σw over the base-rate entropy is {ref}",
+                                  {"kind": "cond-ne", "z": z, "y": y, "w": w, "dtype": str(dt), "expected": ref, "got": got})
+        # (b) covariance of data far from the origin, streamed and merged
+        for dt, offs in ((torch.float32, [100.0, 3000.0]), (torch.float64, [1e5, 3e8])):
+            d = rng.choice([2, 3]); off = rng.choice(offs)
+            nb = rng.randint(2, 4)
+            batches = [[[off * (1 + c) + float(rng.choice([-2, -1, -0.5, 0, 0.25, 1, 2, 3])) for c in range(d)] for _ in range(rng.choice([1, 2, 5, 9]))]
+                       for _ in range(nb)]
+            ts = [torch.tensor(b, dtype=dt) for b in batches]
+            rows = [[Fr(float(v)) for v in row] for t in ts for row in t.tolist()]
+            n = len(rows)
+            if n < 3:
+                continue
+            mean = [sum(r_[c] for r_ in rows) / n for c in range(d)]
+            cov = [[sum((r_[i] - mean[i]) * (r_[j] - mean[j]) for r_ in rows) / (n - 1) for j in range(d)] for i in range(d)]
+            sd = [math.sqrt(float(cov[i][i])) for i in range(d)]
+            if min(sd) == 0:
+                continue
+            a, b = M.Covariance(), M.Covariance()
+            split = rng.randint(1, nb)
+            for i, t in enumerate(ts):
+                (a if i < split else b).update(t)
+            a.merge_state([b])
+            gm, gc = a.compute()
+            rep.case(nontrivial_key=("cond-cov", str(dt), off, n, d), sample=None)
+            rep.count("conditioning:covariance-far-from-origin")
+            # pinned code: error ~ eps·(off/sd) relative to sd_i·sd_j ; one-pass ΣxxT − n·μμT: ~ eps·(off/sd)^2
+            eps = 6e-8 if dt == torch.float32 else 1.2e-16
+            tol = max(200 * eps * off / min(sd), 1e-6)
+            worst = max(abs(float(gc[i][j]) - float(cov[i][j])) / (sd[i] * sd[j]) for i in range(d) for j in range(d))
+            if not worst <= tol:
+                bad += 1
+                rep.violation("C07|Covariance|far-from-origin|differs-from-definition",
+                              f"Covariance ({dt}) on {n} rows offset by {off}: worst entry error {worst:.3g} relative to sd_i·sd_j "
+                              f"(tolerance {tol:.3g}); e.g. cov[0][0] = {float(gc[0][0])} vs definition {float(cov[0][0])}",
+                              {"kind": "cond-cov", "batches": batches, "split": split, "dtype": str(dt)})
+        if bad > 6:
+            break
+    rep.streams["conditioning"] = {"rounds": reps, "violations": bad}
+
 def run(rep: Report):
     rng = Rng(rep.seed * 1000003 + 7)
     check_functional(rep, all_cases(rng, rep.tier), "functional")
     class_programs(rep, rng)
     cov_streams(rep, rng)
     fad_streams(rep, rng)
+    conditioning_stream(rep, Rng(rep.seed * 7919 + 13))
 
 
 def search(rep: Report):
@@ -974,7 +1057,37 @@ def search(rep: Report):
                           {"case": kw_json(fn, kw), "real": [t.tolist() for t in real[1]], "definition": [str(x) for x in exp]})
 
 
+def _replay_conditioning(r) -> bool:
+    dt = torch.float32 if "32" in r["dtype"] else torch.float64
+    if r["kind"] == "cond-ne":
+        z, y, w = r["z"], r["y"], r["w"]
+        ww = w or [1.0] * len(z)
+        ce = sum(wi * (_softplus(zi) - zi * yi) for zi, yi, wi in zip(z, y, ww)) / sum(ww)
+        pr = sum(wi * yi for yi, wi in zip(y, ww)) / sum(ww)
+        ref = ce / (-pr * math.log(pr) - (1 - pr) * math.log(1 - pr))
+        got = float(F.binary_normalized_entropy(torch.tensor(z, dtype=dt), torch.tensor(y, dtype=dt),
+                                                weight=torch.tensor(w, dtype=dt) if w else None, from_logits=True))
+        return abs(got - ref) <= (1e-4 if dt == torch.float32 else 1e-10) * abs(ref)
+    ts = [torch.tensor(b, dtype=dt) for b in r["batches"]]
+    rows = [[Fr(float(v)) for v in row] for t in ts for row in t.tolist()]
+    n, d = len(rows), len(rows[0])
+    mean = [sum(q[c] for q in rows) / n for c in range(d)]
+    cov = [[sum((q[i] - mean[i]) * (q[j] - mean[j]) for q in rows) / (n - 1) for j in range(d)] for i in range(d)]
+    sd = [math.sqrt(float(cov[i][i])) for i in range(d)]
+    a, b = M.Covariance(), M.Covariance()
+    for i, t in enumerate(ts):
+        (a if i < r["split"] else b).update(t)
+    a.merge_state([b])
+    _, gc = a.compute()
+    off = abs(float(mean[0]))
+    eps = 6e-8 if dt == torch.float32 else 1.2e-16
+    tol = max(200 * eps * off / min(sd), 1e-6)
+    return max(abs(float(gc[i][j]) - float(cov[i][j])) / (sd[i] * sd[j]) for i in range(d) for j in range(d)) <= tol
+
+
 def replay(payload) -> bool:
+    if payload["replay"].get("kind") in ("cond-ne", "cond-cov"):
+        return _replay_conditioning(payload["replay"])
     c = payload["replay"].get("case")
     if not c:
         return True
